@@ -69,11 +69,13 @@ CHECKS = {
         note="Trusted: the counting allocator and the verif-hooks step counter; budgets are constants justified in DESIGN 6.2. Known findings D09 (zero-width elements), D16 (unbounded recursion depth), D26 (a citation costs a copy of the string) and D27 (hash containers keyed by big decimals) are reported, not suppressed silently.",
         technique="panic / allocation / step monitors + sanitizer lanes over exhaustive short inputs and structure-aware mutation",
         level="fault_enumeration",
-        quick=NATIVE,
-        thorough=NATIVE + [("rel", 1.0, {"exhaustive3": "1"}), ("asan", 0.1), ("msan", 0.1), ("memcheck", 0.02)],
+        quick=NATIVE + [("dbg", 1.0, {"only": "local", "tz": "CET-1CEST,M3.5.0,M10.5.0/3"})],
+        thorough=NATIVE + [("rel", 1.0, {"exhaustive3": "1"}), ("asan", 0.1), ("msan", 0.1), ("memcheck", 0.02),
+                           ("dbg", 3.0, {"only": "local", "tz": "CET-1CEST,M3.5.0,M10.5.0/3"}), ("rel", 3.0, {"only": "local", "tz": "<+1030>-10:30<+11>-11,M10.1.0,M4.1.0"})],
         custom="c05_depth_probe",
         rule="faults = hostile inputs: (a) all byte strings of length 0..2 per type, (b) valid encodings tampered at a field the reference decoder's annotated parse identifies (chunk size, count, length, tag, position byte, version, constructor index, string id), chunk surgery, splices, bit flips, overwrites with varint edge encodings, truncation, (c) random bytes, (d) primitive read sequences with counts {0, 1, remaining, remaining+1, usize::MAX, usize::MAX - pos + k}; (e) tampered encodings read by client types whose hand-written codec survives a failing nested decode (Tolerant<T> fields in evolved records and constructors, same / older / newer version of the field): the library regains control after its own error; every case counts as non-trivial (any outcome other than Ok/Err within budget is a violation); distinct by (type, input)",
-        floors={"any": {"slice_input_cursor_behind_the_data": 1000, "types_with_exhaustive_short_inputs": 1000, "outcome:Err": 100000, "outcome:Ok": 10000, "hostile_op_sequences": 10000, "tolerant:nested_failure_survived": 1000}},
+        floors={"any": {"slice_input_cursor_behind_the_data": 1000, "types_with_exhaustive_short_inputs": 1000, "outcome:Err": 100000, "outcome:Ok": 10000, "hostile_op_sequences": 10000, "tolerant:nested_failure_survived": 1000,
+                       "local_times_the_zone_cannot_place_rejected": 20}},
         assumptions=["each non-zero-width element consumes at least one input byte, so len + 65536 sequence items bounds every legitimate decode"],
     ),
     "C06": dict(
